@@ -13,6 +13,7 @@ package c11
 import (
 	"context"
 	"crypto/sha256"
+	"encoding/json"
 	"fmt"
 	"os"
 	"path/filepath"
@@ -20,6 +21,7 @@ import (
 	"strings"
 	"sync"
 	"testing"
+	"time"
 
 	anystore "github.com/anyproto/any-store"
 	"google.golang.org/protobuf/proto"
@@ -60,6 +62,7 @@ func init() {
 
 type treeTemplate struct {
 	dir       string
+	shared    bool // lives in the run's scratch directory, shared with other processes: not removed here
 	spaceId   string
 	root      *treechangeproto.RawTreeChangeWithId
 	keys      []*accountdata.AccountKeys
@@ -90,12 +93,116 @@ func getTreeTemplate(fix uint64) (*treeTemplate, error) {
 	if t, ok := treeTpl[fix]; ok {
 		return t, nil
 	}
-	t, err := buildTreeTemplate(fix)
+	t, err := sharedTreeTemplate(fix)
 	if err != nil {
 		return nil, err
 	}
 	treeTpl[fix] = t
 	return t, nil
+}
+
+// templateDoc is the on-disk form of a template (next to the frozen database files), so that the
+// shards of one run and the workers of a native fuzz campaign build the world once, not once each.
+type templateDoc struct {
+	SpaceId, RootId                                       string
+	RootRaw                                               []byte
+	Encrypted                                             bool
+	SeedsTree, SeedsSync                                  []seedDoc
+	Heads                                                 []string
+	SnapshotId, OldChange, PlainChange, PeerOnly, AclHead string
+	AclRoot, ReadKeyId                                    string
+	HonestData                                            []byte
+}
+
+type seedDoc struct {
+	V    int
+	Name string
+	Data []byte
+}
+
+func toDocs(ss []seed) (out []seedDoc) {
+	for _, s := range ss {
+		out = append(out, seedDoc{s.V, s.Name, s.Data})
+	}
+	return
+}
+
+func fromDocs(ds []seedDoc) (out []seed) {
+	for _, d := range ds {
+		out = append(out, seed{V: d.V, Name: d.Name, Data: d.Data})
+	}
+	return
+}
+
+func loadTemplate(dir string) (*treeTemplate, error) {
+	b, err := os.ReadFile(filepath.Join(dir, "template.json"))
+	if err != nil {
+		return nil, err
+	}
+	var d templateDoc
+	if err := json.Unmarshal(b, &d); err != nil {
+		return nil, err
+	}
+	t := &treeTemplate{dir: dir, shared: true, spaceId: d.SpaceId, root: &treechangeproto.RawTreeChangeWithId{RawChange: d.RootRaw, Id: d.RootId}, encrypted: d.Encrypted,
+		heads: d.Heads, snapshotId: d.SnapshotId, oldChange: d.OldChange, plainChange: d.PlainChange, peerOnly: d.PeerOnly, aclHead: d.AclHead, aclRoot: d.AclRoot,
+		readKeyId: d.ReadKeyId, honestData: d.HonestData}
+	t.seeds[0], t.seeds[1] = fromDocs(d.SeedsTree), fromDocs(d.SeedsSync)
+	for i := 0; i < 3; i++ {
+		t.keys = append(t.keys, accounts.Get(i)) // the accounts treesim gives its replicas
+	}
+	return t, nil
+}
+
+func saveTemplate(t *treeTemplate) error {
+	d := templateDoc{SpaceId: t.spaceId, RootId: t.root.Id, RootRaw: t.root.RawChange, Encrypted: t.encrypted, SeedsTree: toDocs(t.seeds[0]), SeedsSync: toDocs(t.seeds[1]),
+		Heads: t.heads, SnapshotId: t.snapshotId, OldChange: t.oldChange, PlainChange: t.plainChange, PeerOnly: t.peerOnly, AclHead: t.aclHead, AclRoot: t.aclRoot,
+		ReadKeyId: t.readKeyId, HonestData: t.honestData}
+	b, err := json.Marshal(d)
+	if err != nil {
+		return err
+	}
+	return os.WriteFile(filepath.Join(t.dir, "template.json"), b, 0o644)
+}
+
+// sharedTreeTemplate builds the template once per scratch directory: the first process takes a
+// lock directory and builds, the others wait for the result (or build privately after 3 minutes).
+func sharedTreeTemplate(fix uint64) (*treeTemplate, error) {
+	if os.Getenv("C11_PRIVATE_TEMPLATE") != "" {
+		return buildTreeTemplate(fix)
+	}
+	final := filepath.Join(os.TempDir(), fmt.Sprintf("c11-shared-tree-template-%d", fix))
+	if t, err := loadTemplate(final); err == nil {
+		return t, nil
+	}
+	lock := final + ".lock"
+	if os.Mkdir(lock, 0o755) == nil {
+		defer os.Remove(lock)
+		t, err := buildTreeTemplate(fix)
+		if err != nil {
+			return nil, err
+		}
+		if err := saveTemplate(t); err != nil {
+			return nil, err
+		}
+		if err := os.Rename(t.dir, final); err != nil {
+			return t, nil // somebody else was faster: keep the private copy
+		}
+		t.dir, t.shared = final, true
+		return t, nil
+	}
+	for i := 0; i < 1800; i++ {
+		time.Sleep(100 * time.Millisecond)
+		if t, err := loadTemplate(final); err == nil {
+			return t, nil
+		}
+		if _, err := os.Stat(lock); err != nil {
+			if t, err := loadTemplate(final); err == nil {
+				return t, nil
+			}
+			break // the builder died without a result
+		}
+	}
+	return buildTreeTemplate(fix)
 }
 
 func copyFiles(src, dst, prefix string) error {
